@@ -107,6 +107,35 @@ def sweep_pool(rng, n, dims=(2, 8, 3), ring=True, nout=1):
     return pool
 
 
+def near_pool(rng, n):
+    """NEAR-IDENTICAL contractions: X (a ring of n tensors with one output index), X with a scalar tensor ()
+    appended last, X with the scalar first, X with the index orders of two tensors permuted, X relabelled"""
+    bonds = ["b%d" % i for i in range(n)]
+    X = [[] for _ in range(n)]
+    for i, b in enumerate(bonds):
+        X[i].append(b)
+        X[(i + 1) % n].append(b)
+    X[rng.randrange(n)].append("o0")
+    for t in X:
+        rng.shuffle(t)
+    size = {b: rng.randint(2, 3) for b in bonds}
+    size["o0"] = 2
+    i, j = rng.sample(range(n), 2)
+    perm = [list(t) for t in X]
+    perm[i] = perm[i][::-1]
+    perm[j] = perm[j][1:] + perm[j][:1]
+    ren = {b: "r%d" % ((k * 7 + 3) % n) for k, b in enumerate(bonds)}
+    ren["o0"] = "out"
+    rel = [[ren[ix] for ix in t] for t in X]
+    rsize = {ren[k]: v for k, v in size.items()}
+
+    def q(inputs, output, sd):
+        return {"inputs": [list(t) for t in inputs], "output": list(output), "size_dict": dict(sd)}
+    return [q(X, ["o0"], size), q(X + [[]], ["o0"], size), q([[]] + X, ["o0"], size), q(perm, ["o0"], size),
+            q(rel, ["out"], rsize)]
+
+
+NEAR_HISTORIES = ([0, 1, 0, 2, 3, 4, 1, 2, 0], [1, 0, 2, 0, 4, 3, 1])
 SWEEP_HISTORY = [0, 1, 2, 0, 1]      # d=2, 8, 3, 2, 8: the cheaper contraction always first
 
 
@@ -353,6 +382,36 @@ def seq_jobs(ctx, rng):
     for ow in (False, True, "improved"):
         add_sweep("reusable-hyper", {"max_repeats": 4, "overwrite": ow, "methods": ["greedy", "random-greedy"]}, 12, "tree")
         add_sweep("reusable-rg", {"max_repeats": 4, "overwrite": ow}, 12, "tree")
+    # near-identical contractions (X, X + trailing scalar, scalar + X, permuted index orders, relabelled) through
+    # the tree AND the path interfaces; explicit hash_method='b' instances are not judged here (C14 hash-b-collision)
+    def add_near(target, opts, n, api):
+        pool = near_pool(rng, n)
+        for h in NEAR_HISTORIES:
+            # module-level objects keep their cache for the life of the process: run these histories in a process of
+            # their own so that a failing history is self-contained
+            jobs.append({"kind": "seq", "target": target, "opts": opts, "queries": pool, "history": list(h),
+                         "solo": target.startswith(("preset:", "instance:")),
+                         "api": api, "tag": "near:%s%s:%s" % (
+                             target, "(cache=%s)" % opts["cache"] if "cache" in opts else "", api)})
+    for api in ("tree", "path", "findpath"):
+        add_near("preset:auto", {}, 16, api)
+    add_near("preset:auto-hq", {}, 16, "tree")
+    for api in ("path", "findpath"):
+        add_near("preset:auto-hq", {}, 26, api)
+    for api in ("via", "path"):
+        add_near("instance:auto_optimize", {}, 16, api)
+    add_near("instance:auto_hq_optimize", {}, 26, "path")
+    for cls in ("auto", "autohq"):
+        for cache in (True, False):
+            o = {"cache": cache, "optimal_cutoff": 0, "max_repeats": 3}
+            if cls == "autohq":
+                o["methods"] = ["greedy", "random-greedy"]
+            for api in ("tree", "path", "findpath"):
+                add_near(cls, o, 8, api)
+    for ow in (False, True, "improved"):
+        for api in ("tree", "path"):
+            add_near("reusable-hyper", {"max_repeats": 3, "overwrite": ow, "methods": ["greedy", "random-greedy"]}, 10, api)
+            add_near("reusable-rg", {"max_repeats": 3, "overwrite": ow}, 10, api)
     if not ctx.quick:
         for _ in range(40):
             t, o = rng.choice([("auto", {"cache": True, "optimal_cutoff": 0, "max_repeats": 3}),
@@ -449,7 +508,9 @@ def run(ctx):
     def chunks(lst, n):
         return [lst[i:i + n] for i in range(0, len(lst), n)]
     fb = chunks(fj, 40)
-    sb = chunks(sj, 4)
+    sj = [j for j in sj if not j.get("solo")] + [j for j in sj if j.get("solo")]
+    nsolo = sum(1 for j in sj if j.get("solo"))
+    sb = chunks(sj[:len(sj) - nsolo], 4) + [[j] for j in sj[len(sj) - nsolo:]]
     tb = chunks(tj, 2)
     batches = fb + sb + tb
     ctx.log("jobs: %d forced, %d sequential, %d stress in %d worker processes" % (len(fj), len(sj), len(tj), len(batches)))
@@ -614,7 +675,9 @@ def run(ctx):
         "threads (same and different contraction), sampled orderings for two-query programs and the Auto objects, "
         "random micro-step schedules (thorough: all 3432 interleavings of the 7 atomic steps); non-trivial = at least "
         "two thread switches and eight steps; distinct by (object, options, programs, executed schedule).  "
-        "sweeps: histories d=2,8,3,2,8 over ONE index structure (ring of 6-22 tensors) with different size_dict, "
+        "near-identical: histories over X, X + trailing scalar, scalar + X, X with permuted index orders, X relabelled "
+        "(rings of 8-26 tensors) through tree and path interfaces (paths strictly valid for the queried number of "
+        "inputs, trees complete without autocompletion).  sweeps: histories d=2,8,3,2,8 over ONE index structure (ring of 6-22 tensors) with different size_dict, "
         "sequentially, forced and from free threads (tree.size_dict and the reported costs are compared with the "
         "query).  sequential: histories over 4-6 different contractions (incl. small-after-large and repeats) through every "
         "preset name, the module instances, Auto/AutoHQ x cache x cutoff, Reusable* x overwrite, by search / __call__ / "
